@@ -64,6 +64,7 @@ func SplitRef(s string) (imp string, hasImp bool, sym string) {
 // GoRef is a resolved reference to a Go symbol.
 type GoRef struct {
 	Ptr  bool   // leading & (values) or * (types)
+	Deref bool  // leading * on a value: the pointed-to value
 	Pkg  string // resolved package path; "" = current package
 	Sym  string // symbol path: New, Global, Box.Inner, Obj{} …
 }
@@ -72,6 +73,9 @@ func (im Imports) ParseValue(s string) GoRef {
 	r := GoRef{}
 	if strings.HasPrefix(s, "&") {
 		r.Ptr = true
+		s = s[1:]
+	} else if strings.HasPrefix(s, "*") {
+		r.Deref = true
 		s = s[1:]
 	}
 	imp, has, sym := SplitRef(s)
